@@ -27,8 +27,11 @@ claim('C07', 'Lean 4 proofs (recursive-descent parser = stratified grammar, exac
 claim('C03', 'Lean 4 proofs (image = window of the address->byte map) + differential correspondence',
       'Kernel-checked theorems: the image of window [start,end] has length end-start+1 and at offset a-start the byte an unmuted '
       'line emitted for a, the fill value elsewhere (also for lines straddling the window edges); muted lines contribute nothing; '
-      'without an end the window stops at the highest emitted address. Each run compares .bin of the real CLI with the model on '
-      'generated programs x windows.',
+      'without an end the window stops at the highest emitted address. For every program the model accepts this holds without '
+      'further hypothesis: every byte line emits exactly the bytes the first pass reserved, so a passing overlap check means '
+      'disjoint byte ranges (accepted_no_common_address, accepted_image_is_spec); the line-by-line image the driver computes is '
+      'proved equal to the dictionary route (assemble_eq_fast). Each run compares .bin of the real CLI with the model on '
+      'generated programs x windows, incl. images of several KiB with lines across 256 / 1024 / 4096-byte blocks.',
       NOTE)
 claim('C04', 'Lean 4 proofs (adjacent-range check on the stable address sort <-> pairwise disjointness) + differential correspondence',
       'Kernel-checked theorems: on the address-sorted line list the adjacent-range check passes iff all byte lines occupying at '
